@@ -54,6 +54,30 @@ fn pstr_inline_roundtrip() {
   kani::cover!(s.len() == 16);
 }
 
+// ---- obligation 2 again over exactly the valid UTF-8 strings (thorough tier: `from_utf8` on 17 symbolic
+// bytes is expensive); the quick-tier harness above covers a superset of this domain
+#[kani::proof]
+#[kani::unwind(19)]
+fn pstr_inline_roundtrip_exact_utf8() {
+  let buf: [u8; 17] = kani::any();
+  let len: usize = kani::any();
+  kani::assume(len <= 17);
+  let r = std::str::from_utf8(&buf[..len]);
+  kani::assume(r.is_ok());
+  let s = r.unwrap();
+  match PStrPrivateRepr::from_str_opt(s) {
+    Some(r) => {
+      assert!(s.len() <= 15);
+      assert!(r.as_heap_id().is_none());
+      match r.as_inline_str() {
+        Ok(back) => assert!(back.as_bytes() == s.as_bytes()),
+        Err(_) => assert!(false),
+      }
+    }
+    None => assert!(s.len() > 15),
+  }
+}
+
 // ---- obligation 3: from_string agrees with from_str_opt bit for bit; Err returns the string
 #[kani::proof]
 #[kani::unwind(19)]
